@@ -57,6 +57,10 @@ type Conn struct {
 	rDeadline time.Time
 	wDeadline time.Time
 
+	// QuietIO suppresses "read"/"write" events (deadline, close and timeout
+	// events are always logged); used where the tap's own allocations matter.
+	QuietIO bool
+
 	seq    *atomic.Int64
 	Events []Event
 	local  net.Addr
@@ -78,6 +82,9 @@ func New(seq *atomic.Int64) *Conn {
 }
 
 func (c *Conn) log(kind string, n int, err error, t time.Time) {
+	if c.QuietIO && (kind == "read" || kind == "write") {
+		return
+	}
 	e := Event{Seq: c.seq.Add(1), Kind: kind, N: n, T: t}
 	if err != nil {
 		e.Err = err.Error()
